@@ -51,55 +51,6 @@ Fixpoint coerce_scalar_lit (s : schema) (v : value) (t : ty) {struct t} : option
   | TNamed n => coerce_leaf_lit s n v
   end.
 
-Definition list_item_type (t : ty) : option ty :=
-  match t with
-  | TList it => Some it
-  | TNonNull (TList it) => Some it
-  | _ => None
-  end.
-
-(* Literal (possibly containing variables) -> coerced value.  [None] = no value: invalid, or a
-   variable without a runtime value.  [cv] = coerced variable values (absent = no value). *)
-Fixpoint coerce_lit (s : schema) (cv : list (str * value)) (v : value) (t : ty) {struct v}
-  : option value :=
-  match v with
-  | VVar x =>
-      match lookup x cv with
-      | None => None
-      | Some VNull => if is_nonnull t then None else Some VNull
-      | Some c => Some c
-      end
-  | VNull => if is_nonnull t then None else Some VNull
-  | VList items =>
-      match list_item_type t with
-      | None => None
-      | Some it =>
-          option_map VList
-            ((fix go (l : list value) : option (list value) :=
-                match l with
-                | [] => Some []
-                | x :: r =>
-                  let cx :=
-                    match coerce_lit s cv x it with
-                    | Some c => Some c
-                    | None =>
-                      (* a variable without value inside a list is null where the item type allows *)
-                      match x with
-                      | VVar y =>
-                          if is_nonnull it then None
-                          else match lookup y cv with None => Some VNull | Some _ => None end
-                      | _ => None
-                      end
-                    end in
-                  match cx, go r with
-                  | Some c, Some cr => Some (c :: cr)
-                  | _, _ => None
-                  end
-                end) items)
-      end
-  | _ => coerce_scalar_lit s v t
-  end.
-
 (* a non-null scalar runtime (JSON) value at a leaf type: variable values *)
 Definition coerce_leaf_val (s : schema) (n : str) (v : value) : option value :=
   match lookup_type s n with
@@ -123,33 +74,222 @@ Fixpoint coerce_scalar_val (s : schema) (v : value) (t : ty) {struct t} : option
   | TNamed n => coerce_leaf_val s n v
   end.
 
-(* runtime value -> coerced value ([None] = invalid) *)
-Fixpoint coerce_val (s : schema) (v : value) (t : ty) {struct v} : option value :=
-  match v with
-  | VNull => if is_nonnull t then None else Some VNull
-  | VVar _ | VEnum _ => None
-  | VList items =>
-      match list_item_type t with
-      | None => None
-      | Some it =>
-          option_map VList
-            ((fix go (l : list value) : option (list value) :=
-                match l with
-                | [] => Some []
-                | x :: r =>
-                  match coerce_val s x it, go r with
-                  | Some c, Some cr => Some (c :: cr)
-                  | _, _ => None
-                  end
-                end) items)
-      end
-  | _ => coerce_scalar_val s v t
+Definition list_item_type (t : ty) : option ty :=
+  match t with
+  | TList it => Some it
+  | TNonNull (TList it) => Some it
+  | _ => None
   end.
 
-(* input types of the fragment: leaf types under list / non-null wrappers *)
+Definition required_arg (a : arg_def) : bool :=
+  is_nonnull (a_type a) && match a_default a with None => true | Some _ => false end.
+
+(* what a request provides for an argument / input field: nothing (or a variable without a runtime
+   value), or a value with the result of its coercion *)
+Inductive provided := PAbsent | PValue (c : option value).
+
+(* CoerceArgumentValues / input object coercion over the definitions in order: absent and not
+   required => the default if any; absent and required, or a value that does not coerce => None.
+   [dflt] coerces a constant default literal at a type. *)
+Fixpoint assemble (dflt : ty -> value -> option value) (defs : list arg_def)
+  (get : arg_def -> provided) : option (list (str * value)) :=
+  match defs with
+  | [] => Some []
+  | ad :: rest =>
+    let here : option (option value) :=      (* None = error; Some None = no entry *)
+      match get ad with
+      | PAbsent =>
+          if required_arg ad then None
+          else match a_default ad with
+               | Some lit => option_map Some (dflt (a_type ad) lit)
+               | None => Some None
+               end
+      | PValue c => option_map Some c
+      end in
+    match here, assemble dflt rest get with
+    | Some (Some c), Some cr => Some ((a_name ad, c) :: cr)
+    | Some None, Some cr => Some cr
+    | _, _ => None
+    end
+  end.
+
+Fixpoint find_arg (n : str) (l : list arg_def) : option arg_def :=
+  match l with
+  | [] => None
+  | a :: r => if str_eqb n (a_name a) then Some a else find_arg n r
+  end.
+
+(* a non-list value at a list type is a list of one: the named type under all wrappers, and how
+   many list wrappers there are *)
+Fixpoint unwrap_named (t : ty) : nat * str :=
+  match t with
+  | TNamed n => (O, n)
+  | TNonNull t' => unwrap_named t'
+  | TList it => let '(k, n) := unwrap_named it in (S k, n)
+  end.
+
+Fixpoint wrap_list (k : nat) (c : value) : value :=
+  match k with O => c | S k' => VList [wrap_list k' c] end.
+
+Definition is_vnull (v : value) : bool := match v with VNull => true | _ => false end.
+
+(* OneOf: exactly one field provided, exactly one entry coerced, neither null *)
+Definition one_of_ok (flds out : list (str * value)) : bool :=
+  match flds, out with
+  | [(_, x)], [(_, c)] => negb (is_vnull x) && negb (is_vnull c)
+  | _, _ => false
+  end.
+
+Definition get_pre (pre : list (str * provided)) (ad : arg_def) : provided :=
+  match lookup (a_name ad) pre with Some p => p | None => PAbsent end.
+
+Section CoerceValues.
+  Variable s : schema.
+  Variable dflt : ty -> value -> option value.     (* coercion of constant default literals *)
+
+  Section Lit.
+    Variable cv : list (str * value).              (* coerced variable values; absent = no value *)
+
+    Definition missing_var (v : value) : bool :=
+      match v with
+      | VVar x => match lookup x cv with None => true | Some _ => false end
+      | _ => false
+      end.
+
+    (* Literal (possibly containing variables) -> coerced value.  [None] = no value: invalid, or
+       a variable without a runtime value. *)
+    Fixpoint coerce_lit (v : value) (t : ty) {struct v} : option value :=
+      match v with
+      | VVar x =>
+          match lookup x cv with
+          | None => None
+          | Some VNull => if is_nonnull t then None else Some VNull
+          | Some c => Some c
+          end
+      | VNull => if is_nonnull t then None else Some VNull
+      | VList items =>
+          match list_item_type t with
+          | None => None
+          | Some it =>
+              option_map VList
+                ((fix go (l : list value) : option (list value) :=
+                    match l with
+                    | [] => Some []
+                    | x :: r =>
+                      let cx :=
+                        match coerce_lit x it with
+                        | Some c => Some c
+                        | None =>
+                          (* a variable without value inside a list is null where the item type allows *)
+                          match x with
+                          | VVar y =>
+                              if is_nonnull it then None
+                              else match lookup y cv with None => Some VNull | Some _ => None end
+                          | _ => None
+                          end
+                        end in
+                      match cx, go r with
+                      | Some c, Some cr => Some (c :: cr)
+                      | _, _ => None
+                      end
+                    end) items)
+          end
+      | VObj flds =>
+          let '(depth, n) := unwrap_named t in
+          match lookup_type s n with
+          | Some (TInput defs oneof) =>
+              match
+                (fix go (l : list (str * value)) : option (list (str * provided)) :=
+                   match l with
+                   | [] => Some []
+                   | (k, x) :: r =>
+                     match find_arg k defs, go r with
+                     | Some ad, Some pr =>
+                         Some ((k, if missing_var x then PAbsent else PValue (coerce_lit x (a_type ad))) :: pr)
+                     | _, _ => None                      (* a field the type does not define *)
+                     end
+                   end) flds
+              with
+              | None => None
+              | Some pre =>
+                match assemble dflt defs (get_pre pre) with
+                | None => None
+                | Some out =>
+                    if oneof && negb (one_of_ok flds out) then None
+                    else Some (wrap_list depth (VObj out))
+                end
+              end
+          | _ => None
+          end
+      | _ => coerce_scalar_lit s v t
+      end.
+  End Lit.
+
+  (* runtime (JSON) value -> coerced value ([None] = invalid): variable values *)
+  Fixpoint coerce_val (v : value) (t : ty) {struct v} : option value :=
+    match v with
+    | VNull => if is_nonnull t then None else Some VNull
+    | VVar _ | VEnum _ => None
+    | VList items =>
+        match list_item_type t with
+        | None => None
+        | Some it =>
+            option_map VList
+              ((fix go (l : list value) : option (list value) :=
+                  match l with
+                  | [] => Some []
+                  | x :: r =>
+                    match coerce_val x it, go r with
+                    | Some c, Some cr => Some (c :: cr)
+                    | _, _ => None
+                    end
+                  end) items)
+        end
+    | VObj flds =>
+        let '(depth, n) := unwrap_named t in
+        match lookup_type s n with
+        | Some (TInput defs oneof) =>
+            match
+              (fix go (l : list (str * value)) : option (list (str * provided)) :=
+                 match l with
+                 | [] => Some []
+                 | (k, x) :: r =>
+                   match find_arg k defs, go r with
+                   | Some ad, Some pr => Some ((k, PValue (coerce_val x (a_type ad))) :: pr)
+                   | _, _ => None
+                   end
+                 end) flds
+            with
+            | None => None
+            | Some pre =>
+              match assemble dflt defs (get_pre pre) with
+              | None => None
+              | Some out =>
+                  if oneof && negb (one_of_ok flds out) then None
+                  else Some (wrap_list depth (VObj out))
+              end
+            end
+        | _ => None
+        end
+    | _ => coerce_scalar_val s v t
+    end.
+End CoerceValues.
+
+(* default literals are constants; a default of an input object may in turn rely on the defaults of
+   its fields: the nesting is bounded by the number of types (a longer chain is a cycle) *)
+Fixpoint coerce_default (s : schema) (fuel : nat) (t : ty) (lit : value) : option value :=
+  match fuel with
+  | O => None
+  | S f => coerce_lit s (coerce_default s f) [] lit t
+  end.
+
+Definition coerce_const (s : schema) : ty -> value -> option value :=
+  coerce_default s (S (length (s_types s))).
+
+(* input types of the fragment: leaf and input object types under list / non-null wrappers *)
 Definition is_input_type (s : schema) (t : ty) : bool :=
   match lookup_type s (named_of t) with
-  | Some (TScalar _) | Some (TEnum _) => true
+  | Some (TScalar _) | Some (TEnum _) | Some (TInput _ _) => true
   | _ => false
   end.
 
@@ -164,10 +304,10 @@ Fixpoint coerce_variable_values (s : schema) (defs : list var_def) (given : list
       match lookup (v_name vd) given with
       | None =>
           match v_default vd with
-          | Some lit => option_map Some (coerce_lit s [] lit (v_type vd))
+          | Some lit => option_map Some (coerce_const s (v_type vd) lit)
           | None => if is_nonnull (v_type vd) then None else Some None
           end
-      | Some v => option_map Some (coerce_val s v (v_type vd))
+      | Some v => option_map Some (coerce_val s (coerce_const s) v (v_type vd))
       end in
     match here, coerce_variable_values s rest given with
     | Some (Some c), Some cr => Some ((v_name vd, c) :: cr)
@@ -176,38 +316,15 @@ Fixpoint coerce_variable_values (s : schema) (defs : list var_def) (given : list
     end
   end.
 
-Definition required_arg (a : arg_def) : bool :=
-  is_nonnull (a_type a) && match a_default a with None => true | Some _ => false end.
-
 (* CoerceArgumentValues.  [None] = field error. *)
-Fixpoint coerce_args (s : schema) (cv : list (str * value)) (defs : list arg_def)
+Definition coerce_args (s : schema) (cv : list (str * value)) (defs : list arg_def)
   (args : list (str * value)) : option (list (str * value)) :=
-  match defs with
-  | [] => Some []
-  | ad :: rest =>
-    let use_default : option (option value) :=
-      match a_default ad with
-      | Some lit => option_map Some (coerce_lit s [] lit (a_type ad))
-      | None => Some None
-      end in
-    let here : option (option value) :=
-      match lookup (a_name ad) args with
-      | None => if required_arg ad then None else use_default
-      | Some v =>
-          let missing_var :=
-            match v with
-            | VVar x => match lookup x cv with None => true | Some _ => false end
-            | _ => false
-            end in
-          if missing_var && negb (required_arg ad) then use_default
-          else option_map Some (coerce_lit s cv v (a_type ad))
-      end in
-    match here, coerce_args s cv rest args with
-    | Some (Some c), Some cr => Some ((a_name ad, c) :: cr)
-    | Some None, Some cr => Some cr
-    | _, _ => None
-    end
-  end.
+  assemble (coerce_const s) defs
+    (fun ad => match lookup (a_name ad) args with
+               | None => PAbsent
+               | Some v => if missing_var cv v then PAbsent
+                           else PValue (coerce_lit s (coerce_const s) cv v (a_type ad))
+               end).
 
 (* ------------------------------------------------------------------ CollectFields *)
 
@@ -335,11 +452,22 @@ Definition first_occ (l : list str) : list str :=
 Inductive cres := CVal (j : json) | CErr.
 
 (* result, error paths, resolver calls - both relative to the current position *)
-Definition out : Type := (cres * list path * list call)%type.
+(* why a field error was raised.  [CauseArgs]: CoerceArgumentValues failed (validation is meant
+   to make this unreachable, up to the run-time-deferred null variable); all others are properties
+   of the data graph: the resolver raised, null in a non-null position, a non-list value for a
+   list type, a leaf that does not serialise, an object/abstract position whose value is not an
+   object of a possible runtime type. *)
+Inductive cause := CauseArgs | CauseRaise | CauseNull | CauseNonList | CauseLeaf | CauseType.
 
-Definition raise_here : out := (CErr, [[]], []).
+(* an error: the response path where it was raised (relative to the current position), its cause *)
+Definition err : Type := (path * cause)%type.
 
-Definition pre_errs (seg : pathseg) (es : list path) : list path := map (cons seg) es.
+Definition out : Type := (cres * list err * list call)%type.
+
+Definition raise_here (c : cause) : out := (CErr, [([], c)], []).
+
+Definition pre_errs (seg : pathseg) (es : list err) : list err :=
+  map (fun e : err => (seg :: fst e, snd e)) es.
 Definition pre_calls (seg : pathseg) (cs : list call) : list call :=
   map (fun c : call => let '(p, f, a) := c in (seg :: p, f, a)) cs.
 
@@ -368,7 +496,7 @@ Inductive fres := FSkip | FRes (o : out).
 
 (* the loop of ExecuteSelectionSet over the grouped field set, given ExecuteField [ef];
    stops at the first field whose error propagates *)
-Definition groups_out : Type := (option (list (str * json)) * list path * list call)%type.
+Definition groups_out : Type := (option (list (str * json)) * list err * list call)%type.
 
 Fixpoint exec_groups (ef : list fieldsel -> option fres) (g : grouped) : option groups_out :=
   match g with
@@ -390,7 +518,7 @@ Fixpoint exec_groups (ef : list fieldsel -> option fres) (g : grouped) : option 
 
 (* the loop of CompleteValue over list items, given the completion [cf] of one item (with the
    item type's error catching applied); [i] = index of the first item *)
-Definition items_out : Type := (option (list json) * list path * list call)%type.
+Definition items_out : Type := (option (list json) * list err * list call)%type.
 
 Fixpoint complete_items (cf : data -> option out) (items : list data) (i : nat) : option items_out :=
   match items with
@@ -444,7 +572,7 @@ Section Exec.
           | None => Some FSkip
           | Some fd =>
             match coerce_args s cv (f_args fd) (fs_args f1) with
-            | None => Some (FRes (catch (f_type fd) raise_here))
+            | None => Some (FRes (catch (f_type fd) (raise_here CauseArgs)))
             | Some args =>
               let d := match lookup (fs_name f1) obj with Some d => d | None => DNull end in
               match complete f (f_type fd) (merged_sels fs) d with
@@ -462,13 +590,13 @@ Section Exec.
     | O => None
     | S f =>
       match d with
-      | DRaise => Some raise_here
+      | DRaise => Some (raise_here CauseRaise)
       | _ =>
         match t with
         | TNonNull t' =>
             match complete f t' sels d with
             | None => None
-            | Some (CVal JNull, es, cs) => Some (CErr, es ++ [[]], cs)
+            | Some (CVal JNull, es, cs) => Some (CErr, es ++ [([], CauseNull)], cs)
             | Some o => Some o
             end
         | TList it =>
@@ -480,7 +608,7 @@ Section Exec.
                 | Some (Some js, es, cs) => Some (CVal (JList js), es, cs)
                 | Some (None, es, cs) => Some (CErr, es, cs)
                 end
-            | _ => Some raise_here
+            | _ => Some (raise_here CauseNonList)
             end
         | TNamed n =>
             match d with
@@ -490,25 +618,25 @@ Section Exec.
               | Some (TObject _ _) =>
                   match d with
                   | DObj _ flds => exec_sels f n flds sels
-                  | _ => Some raise_here
+                  | _ => Some (raise_here CauseType)
                   end
               | Some (TInterface _) | Some (TUnion _) =>
                   match d with
                   | DObj rt flds =>
                       if is_object s rt && possible s n rt then exec_sels f rt flds sels
-                      else Some raise_here
-                  | _ => Some raise_here
+                      else Some (raise_here CauseType)
+                  | _ => Some (raise_here CauseType)
                   end
               | Some td =>
                   match d with
                   | DLeaf l =>
                       match complete_leaf td l with
                       | Some j => Some (CVal j, [], [])
-                      | None => Some raise_here
+                      | None => Some (raise_here CauseLeaf)
                       end
-                  | _ => Some raise_here
+                  | _ => Some (raise_here CauseLeaf)
                   end
-              | None => Some raise_here
+              | None => Some (raise_here CauseType)
               end
             end
         end
@@ -521,7 +649,7 @@ End Exec.
 Inductive response :=
 | RequestError                                         (* no data entry: variables rejected, no root type *)
 | OutOfFuelR
-| Resp (data : json) (errors : list path) (calls : list call).
+| Resp (data : json) (errors : list err) (calls : list call).
 
 Definition execute_fuel (fuel : nat) (s : schema) (d : document) (vars : list (str * value))
   (root : data) : response :=
